@@ -217,4 +217,43 @@ macro_rules! drv_custom2_to {
     }};
 }
 
+/// caller-supplied ndarray out views that are not in standard layout (reversed: step -1; strided: step 2): the drivers write
+/// result i to slot i of the VIEW — output order is part of the protocol (added after seeded change C02-m5)
+pub fn out_view_order<const N: usize>(rev: bool) {
+    let xs: [i32; N] = kani::any();
+    let v: Vec<i32> = xs.to_vec();
+    let w: usize = kani::any();
+    kani::assume(w >= 1 && w <= N + 2);
+    let ret: Vec<(Option<i32>, i32)> = v.rolling_apply(w, |rm, x| (rm, x), None).unwrap();
+    let m = if rev { N } else { 2 * N };
+    let mut big: Array1<MaybeUninit<(Option<i32>, i32)>> = Array1::from_elem(m, MaybeUninit::new((None, -77)));
+    {
+        let view = if rev { big.slice_mut(s![..;-1]) } else { big.slice_mut(s![..;2]) };
+        let r = v.rolling_apply::<Array1<(Option<i32>, i32)>, _, _>(w, |rm, x| (rm, x), Some(view));
+        assert!(r.is_none(), "rolling_apply with an out buffer returns nothing");
+    }
+    let mut i = 0;
+    while i < N {
+        let slot = if rev { N - 1 - i } else { 2 * i };
+        let got = unsafe { big[slot].assume_init() };
+        assert!(got == ret[i], "out view: slot i of the caller's view holds the result of position i");
+        i += 1;
+    }
+    kani::cover!(w < N, "window shorter than the series");
+}
+
+#[kani::proof]
+#[kani::stub(std::fmt::format, crate::util::fmt_stub)]
+#[kani::unwind(10)]
+pub fn c02_out_view_reversed_n2() {
+    out_view_order::<2>(true);
+}
+
+#[kani::proof]
+#[kani::stub(std::fmt::format, crate::util::fmt_stub)]
+#[kani::unwind(10)]
+pub fn c02_out_view_strided_n2() {
+    out_view_order::<2>(false);
+}
+
 include!("c02_gen.rs");
